@@ -41,7 +41,7 @@ C11-load-allocator-state-region-range C11 c11_mark_page_allocated_n13
 C01-select-slot-2pc-only-when-corrupt C01 c12_select_slot_table
 C15-varint-65536-wraps C15 c15_varint_roundtrip
 C20-close-flags-after-backend-close C20 c20_close_exactly_once
-C12-verify-skips-last-child C12 c12_verify_single_page_tree
+C12-verify-skips-last-child C12 c12_verify_every_child_checked
 C14-resize-to-truncate-before-mark-full C14 c14_resize_to_drop_regions_tracker thorough
 C04-large-value-sibling-order C04 c04_leaf_insert_vv_at0
 LIST
